@@ -1,0 +1,26 @@
+//go:build verif
+
+package msgpacker
+
+// MemoryCurrentForVerif returns the global buffered-bytes counter (read-only).
+func MemoryCurrentForVerif() int {
+	memoryCheck.lock.RLock()
+	defer memoryCheck.lock.RUnlock()
+	return memoryCheck.current
+}
+
+// MemoryMaxForVerif returns the global limit (bytes) fixed by the first NewPacker call.
+func MemoryMaxForVerif() int {
+	memoryCheck.lock.RLock()
+	defer memoryCheck.lock.RUnlock()
+	return memoryCheck.max
+}
+
+// ResetMemoryForVerif forgets the process-global limit and counter so that one test
+// process can exercise several limits. Only for use between cases, with no Packer alive.
+func ResetMemoryForVerif() {
+	memoryCheck.lock.Lock()
+	defer memoryCheck.lock.Unlock()
+	memoryCheck.max = 0
+	memoryCheck.current = 0
+}
